@@ -479,7 +479,18 @@ pub fn open_loop(run: &mut Run, cfg: &SCfg, t0: u64, iters: usize, clears: bool,
             pl.env.get(i).unwrap_or(&SockEnv::NotWritable).apply(l.id);
         }
         let before = live.clone();
+        // C03: a datagram that answers no probe of the round in progress changes nothing
+        let junk = matches!(&pl.dgram, Dgram::Data(..)) && pl.answers.is_none() && pl.env.iter().all(|e| !e.writable());
+        let snap = |st: &VerifState| format!("{} {:?}", show_state(sc.max_rounds, st), st.probes().iter().map(crate::strategy::show_slot).collect::<Vec<_>>());
+        let snap_before = if junk { Some(snap(&st)) } else { None };
         let r = guarded(|| strategy.verif_recv_response(&mut spy, &mut st));
+        if let (Some(b), Ok(Ok(()))) = (&snap_before, &r) {
+            let a = snap(&st);
+            if *b != a {
+                run.fail("c03-stack-junk-changed-state", format!("{ctx} … {req} | before: {b} | after: {a}"));
+            }
+            run.count("c03:stack-junk-checked");
+        }
         let _ = simsock::take_ops();
         let polled: Vec<String> = simsock::take_polled()
             .iter()
@@ -869,6 +880,34 @@ fn plan_path(path_len: u8, loss: u64, faults: u8) -> impl FnMut(&View<'_>, &mut 
             let from = crate::wire_gen::responder(cfg.v6(), rng);
             readable = Poll::Yes;
             dgram = Dgram::Data(Some(from), deliver(&w, &icmp, from, rng));
+        } else if faults >= 1 && kind == 4 && !v.outstanding.is_empty() {
+            // an answer meant for a sibling tracer on the same host: the quotation of one of our probes with the
+            // ICMP identifier changed (another non-zero trace id), or with one fixed port / the target changed
+            let (p, s) = rng.pick(v.outstanding);
+            let w = cfg.ccfg().wire();
+            if let Some(mut d) = wire_datagram(&w, p, s, rng) {
+                let ih = if w.v6 { 40 } else { 20 };
+                let mut ok = true;
+                match cfg.proto {
+                    'i' => { d[ih + 4] ^= 0x55; d[ih + 5] ^= 0x2a; let id = u16::from_be_bytes([d[ih + 4], d[ih + 5]]); ok = id != 0 && id != cfg.trace_id; }
+                    _ => match cfg.pd {
+                        Pd::Src(_) => d[ih + 1] ^= 1,
+                        Pd::Dest(_) => d[ih + 3] ^= 1,
+                        Pd::Both(..) => if rng.chance(1, 2) { d[ih + 1] ^= 1 } else { d[ih + 3] ^= 1 },
+                        Pd::None => ok = false,
+                    },
+                }
+                let min = min_quote(&w, p.flags.bits() & 2 != 0);
+                if ok && d.len() >= min {
+                    let n = rng.range(min as u64, d.len().min(200) as u64) as usize;
+                    let q = quote(&w, &d, n, rng);
+                    let from = crate::wire_gen::responder(cfg.v6(), rng);
+                    let (la, body) = icmp_body(w.v6, &q, ExtMode::None, &[]);
+                    let icmp = icmp_message(&w, ty_te(w.v6), 0, la, &body, from);
+                    readable = Poll::Yes;
+                    dgram = Dgram::Data(Some(from), deliver(&w, &icmp, from, rng));
+                }
+            }
         } else if faults >= 1 && kind == 2 && !v.previous.is_empty() {
             // a late answer to a probe of the round published last
             let (p, s) = rng.pick(v.previous);
